@@ -12,7 +12,9 @@
 (*                   equals previous iterate - step * previous mean;       *)
 (*                   cfg_ok = both envelopes equal the ones re-built from  *)
 (*                   the interpolation / extrema / padding options as they *)
-(*                   were configured when the call was entered             *)
+(*                   were configured when the call was entered; few = the  *)
+(*                   iterate has fewer than two maxima or minima (only     *)
+(*                   then may an envelope be missing)                      *)
 (*   Stop(k, fired, indep, near)  after the stop function returned; indep  *)
 (*                   = the harness's own evaluation of the documented rule *)
 (*   Energy(fired)   after _energy_difference returned                     *)
@@ -48,6 +50,7 @@ TEnv == /\ IsEvent("Env")
         /\ Clause("env.iteration_number", Ev.k = niters)
         /\ Clause("env.iterate_is_previous_minus_step_mean", Ev.iter_ok = 1)
         /\ Clause("env.built_with_the_configured_options", Ev.cfg_ok = 1)
+        /\ Clause("env.missing_only_when_the_iterate_has_too_few_extrema", Ev.ok = 1 \/ Ev.few = 1)
         /\ IF Ev.ok = 1 THEN EnvOK ELSE EnvMissing
         /\ UNCHANGED c /\ Consume
 TStop == /\ IsEvent("Stop")
